@@ -17,7 +17,7 @@ def load_corpus(prop):
 
 
 def run_coexec(prop, tier, seed, *, module, theorems, gen_cases, nontrivial, rule,
-               engines, known=None, extra_obligations=None, stats=None, extra_cov=None):
+               engines, known=None, extra_obligations=None, stats=None, extra_cov=None, parts=None):
     """gen_cases(rng, tier) -> list of cases; engines: list of Engine; nontrivial(case)->bool.
     known(case, impl_obs, model_obs) -> finding-id or None (known findings, DESIGN section 5)."""
     t0 = time.time()
@@ -57,25 +57,39 @@ def run_coexec(prop, tier, seed, *, module, theorems, gen_cases, nontrivial, rul
             write_ev(prop, tier, seed, obligations, cases, nontrivial, rule, total, t0, 1, engines, stats, corr_ok=False, extra_cov=extra_cov)
             C.violation(prop, path)
             return 1
+    # further correspondence parts (e.g. the same term language written as real tuple expressions)
+    part_cov = {}
+    for part in (parts or []):
+        n, payload, pc = part(rng, tier, seed, cases)
+        total += n
+        part_cov.update(pc)
+        if payload is not None:
+            path = C.write_replay(prop, seed, payload)
+            write_ev(prop, tier, seed, obligations, cases, nontrivial, rule, total, t0, 1, engines, stats, corr_ok=False,
+                     extra_cov=dict(extra_cov or {}, **part_cov), n_parts=len(parts))
+            C.violation(prop, path)
+            return 1
+    if parts:
+        extra_cov = dict(extra_cov or {}, **part_cov)
     if pending_failure is not None:
         raise pending_failure
     for f in C.known_findings().get("known", []):
         if f["property"] == prop and f["id"] in known_hits:
             print(f"KNOWN-FINDING: property={prop} {f['what']} ({known_hits[f['id']]} cases of this run)")
-    write_ev(prop, tier, seed, obligations, cases, nontrivial, rule, total, t0, 0, engines, stats, corr_ok=True, extra_cov=extra_cov)
+    write_ev(prop, tier, seed, obligations, cases, nontrivial, rule, total, t0, 0, engines, stats, corr_ok=True, extra_cov=extra_cov, n_parts=len(parts or []))
     print(f"{prop}: {len(obligations)} theorems closed; {total} co-executions agree ({time.time()-t0:.1f}s)")
     return 0
 
 
-def write_ev(prop, tier, seed, obligations, cases, nontrivial, rule, total, t0, violations, engines, stats, corr_ok, extra_cov=None):
+def write_ev(prop, tier, seed, obligations, cases, nontrivial, rule, total, t0, violations, engines, stats, corr_ok, extra_cov=None, n_parts=0):
     distinct = {}
     for c in cases:
         distinct.setdefault(canon(c), c)
     nt = sum(1 for c in distinct.values() if nontrivial(c))
-    n_obl = len(obligations) + 1
+    n_obl = len(obligations) + 1 + n_parts
     cov = {
         "obligations": n_obl,
-        "discharged": len(obligations) + (1 if corr_ok else 0),
+        "discharged": len(obligations) + ((1 + n_parts) if corr_ok else 0),
         "checker_cmd": f"make -C /verif/coq (coqc 8.16.1, full .vo) ; ./check {prop} --tier {tier}",
         "trusted_base": C.TRUSTED_BASE,
         "theorems": obligations,
@@ -99,6 +113,19 @@ def replay_coexec(prop, path, engines_for):
     if case is None:
         print("replay file names an obligation, not an input:", payload.get("theorem_or_correspondence"))
         return 1
+    if payload.get("part") == "tuples":
+        from . import tuple_part as T
+        from .layer_a import proj_default
+        crate = "tuples" + prop[1:]
+        impl, model = T.both(crate, [case])
+        print("clause :", payload.get("rust_clause"))
+        print("model  :", model[0])
+        print("impl   :", impl[0])
+        if proj_default(case, impl[0]) != proj_default(case, model[0]):
+            C.violation(prop, path)
+            return 1
+        print("agree on the property's projection")
+        return 0
     eng = engines_for(payload)
     eng.build()
     impl, model = eng.both([case])
